@@ -429,7 +429,7 @@ pub fn add_entry_long(p: &mut Plan, q: bool) {
             }
         }));
     }
-    p.phases.push(Phase { label: format!("S2c/S8: header counts 0..={} and 99..513 × 5 shapes × 4 capacities × 4 tails, and {} size families × 5 sizes × 5 variants × 2 capacities, on every entry point of the kind", kmax, nf), backend: Backend::Native, tasks });
+    p.phases.push(Phase { label: format!("S2c/S8: header counts 0..={} and 99..513 × 5 shapes × 4 capacities × 4 tails, and {} size families × 5 sizes × up to 8 variants × 2 capacities, on every entry point of the kind", kmax, nf), backend: Backend::Native, tasks });
     p.bounds.push(format!("entry-point agreement on long inputs: k = 0..={} and {{99..102,127..130,255..257,300,511,513}} minimal header lines (5 shapes, capacities k-1, k, k+1, 2k+4, 4 tails); size families at 600 / 4200 / 7900 / 20000 / 70000 bytes (complete, truncated, erroneous, with body; capacity 1 and enough)", kmax));
 }
 
@@ -786,7 +786,43 @@ pub fn add_whitespace_run_sweep(p: &mut Plan, _q: bool) {
             }
         }));
     }
-    p.phases.push(Phase { label: format!("S2c: whitespace runs of length 0..={} × 4 SP/HTAB patterns at {} grammar positions (full and cut inside the run)", WS_LONG, n), backend: Backend::Native, tasks });
+    // the two bytes in front of a trailing run × the run: trimming tricks that work on words see
+    // the last visible bytes and the blanks together
+    for (e, pre, post) in [
+        (Entry::ReqCfg, &b"GET / HTTP/1.1\r\nA: deploy finished"[..], &b"\r\n\r\n"[..]),
+        (Entry::Headers, b"K:v", b"\nL: 1\n\n"),
+        (Entry::RespCfg, b"HTTP/1.1 200 OK\r\nA:", b"\r\n\r\n"),
+    ] {
+        tasks.push(Box::new(move |ck: &mut Checker| {
+            let lane = Lane::new(e, 0, 4);
+            let mut buf = Vec::new();
+            for b1 in [b'a', b' ', b'\t', b'!'] {
+                for b2 in 0..=255u8 {
+                    for l in (0..=24usize).chain([31, 32, 33, 40]) {
+                        for pat in 0..3 {
+                            buf.clear();
+                            buf.extend_from_slice(pre);
+                            buf.push(b1);
+                            buf.push(b2);
+                            for i in 0..l {
+                                buf.push(match pat {
+                                    0 => b' ',
+                                    1 => b'\t',
+                                    _ => if i % 2 == 0 { b' ' } else { b'\t' },
+                                });
+                            }
+                            buf.extend_from_slice(post);
+                            one_shot(ck, &lane, &buf);
+                        }
+                    }
+                    if ck.full() {
+                        return;
+                    }
+                }
+            }
+        }));
+    }
+    p.phases.push(Phase { label: format!("S2c: whitespace runs of length 0..={} × 4 SP/HTAB patterns at {} grammar positions (full and cut inside the run); the two bytes in front of a trailing run (4 × 256) × run 0..=24,31..33,40", WS_LONG, n), backend: Backend::Native, tasks });
     p.bounds.push(format!("S2c whitespace runs: length 0..=300 (every cut inside the run up to 40, the last three cuts beyond), patterns SP* / HTAB* / alternating / HTAB SP*, at {} positions (after the colon, before the line end, before the colon, before the first header, inside folds, request- and status-line delimiters, chunk size, message start), complete and cut inside the run", n));
 }
 
@@ -991,6 +1027,15 @@ pub fn add_field_prefix_sweep(p: &mut Plan, q: bool, backends: &[Backend]) {
 // masks), with and without a long remainder of the buffer behind the field.
 // --------------------------------------------------------------------------------------------
 
+const LONG_PLACES: [Place; 7] = [
+    Place::EndFlush,
+    Place::Mid(crate::arena::PAGE - 1),
+    Place::StartFlush,
+    Place::Mid(crate::arena::PAGE - 17),
+    Place::EndFlush,
+    Place::Mid(crate::arena::PAGE - 40),
+    Place::Mid(crate::arena::PAGE - 100),
+];
 const LONG_VALS: [u8; 13] = [0x00, 0x09, 0x0a, 0x0d, 0x1f, 0x20, 0x21, b':', 0x7e, 0x7f, 0x80, 0xff, b'B'];
 const LONG_VALS_T: [u8; 32] = [
     0x00, 0x01, 0x08, 0x09, 0x0a, 0x0b, 0x0c, 0x0d, 0x0e, 0x1f, 0x20, 0x21, b'"', b'(', b',', b'/', b'0', b':', b';', b'@', b'B', b'[', b'z', b'{', 0x7e, 0x7f, 0x80, 0x9f, 0xa0, 0xc3, 0xf4, 0xff,
@@ -1062,6 +1107,10 @@ pub fn add_long_fields(p: &mut Plan, q: bool, backends: &[Backend], names: &[&st
                         let mut base = Model::for_entry(lane.entry, lane.cfg, lane.cap);
                         base.feed(f.pre);
                         for l in (lo..=lmax).filter(|l| l % 8 == band) {
+                            // the placement rotates with the length: flush against the guard pages,
+                            // and with a page boundary 1 / 17 / 40 / 100 bytes into the data (fast
+                            // paths that look at the address, not the content)
+                            let lane = Lane { place: LONG_PLACES[(l / 8) % LONG_PLACES.len()], ..lane };
                             buf.clear();
                             buf.extend_from_slice(f.pre);
                             buf.extend(std::iter::repeat(f.fill).take(l));
@@ -1078,12 +1127,16 @@ pub fn add_long_fields(p: &mut Plan, q: bool, backends: &[Backend], names: &[&st
                                         buf[fs + pos] = v;
                                     }
                                     if !chain {
+                                        // the complete message first, then the same bytes cut right
+                                        // after the field: the next input (same address, one byte
+                                        // different) follows a Partial inside a long field — state
+                                        // kept between calls and keyed by the address shows up
                                         let mut m = at_pos;
                                         m.feed(&buf[fs + pos..fs + l]);
-                                        // cut right after the field
-                                        ck.eval(&lane, &buf[..fs + l], Some(&m), None);
+                                        let mcut = m;
                                         m.feed(&buf[fs + l..]);
                                         ck.eval(&lane, &buf, Some(&m), None);
+                                        ck.eval(&lane, &buf[..fs + l], Some(&mcut), None);
                                     } else {
                                         let mut cuts: Vec<usize> = Vec::with_capacity(40);
                                         let start = if pos < l { fs + pos + 1 } else { fs + l };
@@ -1165,12 +1218,436 @@ pub fn add_long_fields(p: &mut Plan, q: bool, backends: &[Backend], names: &[&st
         p.phases.push(Phase { label: format!("S2b': long fields, {} fields × 3 remainders × L≤{} × position × {} boundary bytes", fields.len(), lmax, if q { 13 } else { 32 }), backend: b, tasks });
     }
     p.bounds.push(format!(
-        "S2b' long fields: {:?}, run length 71..={lmax} before the minimal remainder and 0..={lmax} before two 200-byte remainders (valid header lines + body; an invalid line first), one byte of a {}-value boundary set at every position (and none), complete and cut after the field{}, backends {:?}",
+        "S2b' long fields: {:?}, run length 71..={lmax} before the minimal remainder and 0..={lmax} before two 200-byte remainders (valid header lines + body; an invalid line first), one byte of a {}-value boundary set at every position (and none), complete and cut after the field{}, placement rotating with the length (guard-flush at either end; a page boundary 1 / 17 / 40 / 100 bytes into the data), backends {:?}",
         fields.iter().map(|f| f.name).collect::<Vec<_>>(),
         if q { 13 } else { 32 },
         " (when a streaming oracle is armed: 4 (8) offending values and a chain of 18 (35) cuts around +128/+256 behind the field start and behind the offender; otherwise also, at lengths 130/200/300, an in-class edge byte {09,20,21,FF} and an out-of-class byte {00,0A,0D,1F,7F} at distance 8/16/32/64/96/128, both orders, every position)",
         backends.iter().map(|b| b.name()).collect::<Vec<_>>()
     ));
+}
+
+
+// --------------------------------------------------------------------------------------------
+// S2(d): relations between two fields, and real-world tokens
+// --------------------------------------------------------------------------------------------
+
+const METHODS: [&[u8]; 30] = [
+    b"GET", b"POST", b"PUT", b"HEAD", b"DELETE", b"OPTIONS", b"PATCH", b"CONNECT", b"TRACE", b"GE", b"GETT", b"POS", b"POSTS", b"get", b"PoST", b"M-SEARCH",
+    b"PRI", b"PROPFIND", b"PROPPATCH", b"MKCOL", b"COPY", b"MOVE", b"LOCK", b"UNLOCK", b"REPORT", b"SOURCE", b"PURGE", b"DESCRIBE", b"INVITE", b"SUBSCRIBE",
+];
+const TARGETS: [&[u8]; 10] = [b"/", b"*", b"http://example.com/a/b", b"/a?b=c&d=e#f", b"/%41%zz", b"/caf\xc3\xa9", b"example.com:443", b"/\xe2\x82\xac/\xf0\x9f\x98\x80", b"/index.html", b"rtsp://h/s"];
+const VERSIONS: [&[u8]; 12] = [b"HTTP/1.1", b"HTTP/1.0", b"HTTP/1.2", b"HTTP/2.0", b"HTTP/2", b"HTTP/0.9", b"http/1.1", b"HTTP/1.10", b"HTTPS/1.1", b"RTSP/1.0", b"SIP/2.0", b"ICY"];
+const HNAMES: [&[u8]; 16] = [b"Host", b"Content-Length", b"Transfer-Encoding", b"Connection", b"Cookie", b"Set-Cookie", b"Expect", b"Upgrade", b"TE", b"content-length", b"HOST", b"X", b"Content-Type", b"User-Agent", b"Accept", b"Date"];
+const HVALUES: [&[u8]; 14] = [b"", b"0", b"5", b"chunked", b"close", b"keep-alive", b"a=b; c=d", b"100-continue", b"gzip, deflate", b"caf\xe9 \xff", b"text/html; charset=utf-8", b"*/*", b"example.com", b"Sun, 06 Nov 1994 08:49:37 GMT"];
+/// The registered status codes with their standard reason phrases, and a few codes outside them.
+const STATUS: [(&[u8], &[u8]); 44] = [
+    (b"100", b"Continue"), (b"101", b"Switching Protocols"), (b"102", b"Processing"), (b"103", b"Early Hints"),
+    (b"200", b"OK"), (b"201", b"Created"), (b"202", b"Accepted"), (b"204", b"No Content"), (b"206", b"Partial Content"),
+    (b"300", b"Multiple Choices"), (b"301", b"Moved Permanently"), (b"302", b"Found"), (b"303", b"See Other"), (b"304", b"Not Modified"), (b"307", b"Temporary Redirect"), (b"308", b"Permanent Redirect"),
+    (b"400", b"Bad Request"), (b"401", b"Unauthorized"), (b"403", b"Forbidden"), (b"404", b"Not Found"), (b"405", b"Method Not Allowed"), (b"408", b"Request Timeout"), (b"409", b"Conflict"), (b"410", b"Gone"),
+    (b"411", b"Length Required"), (b"413", b"Payload Too Large"), (b"414", b"URI Too Long"), (b"417", b"Expectation Failed"), (b"418", b"I'm a teapot"), (b"426", b"Upgrade Required"), (b"429", b"Too Many Requests"), (b"431", b"Request Header Fields Too Large"),
+    (b"500", b"Internal Server Error"), (b"501", b"Not Implemented"), (b"502", b"Bad Gateway"), (b"503", b"Service Unavailable"), (b"504", b"Gateway Timeout"), (b"505", b"HTTP Version Not Supported"),
+    (b"599", b"x"), (b"600", b"y"), (b"999", b"z"), (b"000", b"zero"), (b"099", b"low"), (b"1000", b"four digits"),
+];
+const CODES: [&[u8]; 12] = [b"100", b"101", b"200", b"204", b"206", b"304", b"404", b"500", b"599", b"600", b"999", b"000"];
+const REASONS: [&[u8]; 9] = [b"", b"OK", b"Not Found", b" leading", b"\ttab", b"caf\xc3\xa9", b"x\xff", b"Switching Protocols", b"a  b"];
+
+/// Which parts a property wants: request line, status line, header block.
+pub fn add_token_grids(p: &mut Plan, _q: bool, req: bool, resp: bool, hdr: bool) {
+    let mut tasks: Vec<TaskFn> = Vec::new();
+    if req {
+        // method length × target length (fast paths keyed on the first four bytes, block scanners
+        // starting at every phase), both multi-space settings, complete and cut after the version
+        tasks.push(Box::new(|ck: &mut Checker| {
+            for cfg in [0u8, C_MULTI_REQ] {
+                let lane = Lane::new(Entry::ReqCfg, cfg, 2);
+                let mut buf = Vec::new();
+                for m in 1..=24usize {
+                    for t in 1..=40usize {
+                        for (mf, tf) in [(b'M', b'/'), (b'G', b'a'), (b'P', 0xc3u8)] {
+                            for tail in [&b" HTTP/1.1\r\n\r\n"[..], b" HTTP/1.0\n\n", b" HTTP/1.1"] {
+                                buf.clear();
+                                buf.extend(std::iter::repeat(mf).take(m));
+                                buf.push(b' ');
+                                buf.extend(std::iter::repeat(tf).take(t));
+                                buf.extend_from_slice(tail);
+                                one_shot(ck, &lane, &buf);
+                            }
+                        }
+                    }
+                    if ck.full() {
+                        return;
+                    }
+                }
+                // every real method with each of its bytes replaced by every value (fast paths that
+                // recognise a method by some of its bytes), in front of two targets
+                for m in METHODS {
+                    for t in [&b"/x"[..], b"*"] {
+                        let mut line = m.to_vec();
+                        line.push(b' ');
+                        line.extend_from_slice(t);
+                        line.extend_from_slice(b" HTTP/1.1\r\nHost: h\r\n\r\n");
+                        for pos in 0..=m.len() {
+                            let orig = line[pos];
+                            for v in 0..=255u8 {
+                                line[pos] = v;
+                                one_shot(ck, &lane, &line);
+                            }
+                            line[pos] = orig;
+                        }
+                    }
+                    if ck.full() {
+                        return;
+                    }
+                }
+                // real methods × real targets × versions × line ends
+                for m in METHODS {
+                    for t in TARGETS {
+                        for v in VERSIONS {
+                            for sep in [&b" "[..], b"  ", b"\t"] {
+                                for eol in [&b"\r\n\r\n"[..], b"\n\n", b"\r\nHost: x\r\n\r\n", b"\r\n", b"\r\n\r\nSM\r\n\r\n"] {
+                                    buf.clear();
+                                    buf.extend_from_slice(m);
+                                    buf.extend_from_slice(sep);
+                                    buf.extend_from_slice(t);
+                                    buf.extend_from_slice(sep);
+                                    buf.extend_from_slice(v);
+                                    buf.extend_from_slice(eol);
+                                    one_shot(ck, &lane, &buf);
+                                }
+                            }
+                        }
+                    }
+                }
+            }
+        }));
+    }
+    if resp {
+        tasks.push(Box::new(|ck: &mut Checker| {
+            for cfg in [0u8, C_MULTI_RESP] {
+                let lane = Lane::new(Entry::RespCfg, cfg, 2);
+                let mut buf = Vec::new();
+                // code value × reason content × reason length
+                for code in CODES {
+                    for r in REASONS {
+                        for pad in 0..=40usize {
+                            for v in [&b"HTTP/1.1"[..], b"HTTP/1.0"] {
+                                for eol in [&b"\r\n\r\n"[..], b"\n\n", b"\r\nA: b\r\n\r\n", b""] {
+                                    buf.clear();
+                                    buf.extend_from_slice(v);
+                                    buf.push(b' ');
+                                    buf.extend_from_slice(code);
+                                    buf.push(b' ');
+                                    buf.extend_from_slice(r);
+                                    buf.extend(std::iter::repeat(b'r').take(pad));
+                                    buf.extend_from_slice(eol);
+                                    one_shot(ck, &lane, &buf);
+                                }
+                            }
+                        }
+                        // no reason at all
+                        for eol in [&b"\r\n\r\n"[..], b"\n\n", b" \r\n\r\n"] {
+                            buf.clear();
+                            buf.extend_from_slice(b"HTTP/1.1 ");
+                            buf.extend_from_slice(code);
+                            buf.extend_from_slice(eol);
+                            one_shot(ck, &lane, &buf);
+                        }
+                    }
+                    if ck.full() {
+                        return;
+                    }
+                }
+                // every byte of every registered status line replaced by every value
+                for (code, phrase) in STATUS {
+                    for v in [&b"HTTP/1.1"[..], b"HTTP/1.0"] {
+                        let mut line = v.to_vec();
+                        line.push(b' ');
+                        line.extend_from_slice(code);
+                        line.push(b' ');
+                        line.extend_from_slice(phrase);
+                        let n = line.len();
+                        line.extend_from_slice(b"\r\n\r\n");
+                        for pos in 0..n {
+                            let orig = line[pos];
+                            for x in 0..=255u8 {
+                                line[pos] = x;
+                                one_shot(ck, &lane, &line);
+                            }
+                            line[pos] = orig;
+                        }
+                    }
+                    if ck.full() {
+                        return;
+                    }
+                }
+                // every registered code with its standard phrase, under every protocol token
+                for (code, phrase) in STATUS {
+                    for v in VERSIONS {
+                        for sep in [&b" "[..], b"  "] {
+                            for eol in [&b"\r\n\r\n"[..], b"\n\n", b"\r\nServer: x\r\n\r\n", b"\r\n"] {
+                                for with_phrase in [true, false] {
+                                    buf.clear();
+                                    buf.extend_from_slice(v);
+                                    buf.extend_from_slice(sep);
+                                    buf.extend_from_slice(code);
+                                    if with_phrase {
+                                        buf.extend_from_slice(sep);
+                                        buf.extend_from_slice(phrase);
+                                    }
+                                    buf.extend_from_slice(eol);
+                                    one_shot(ck, &lane, &buf);
+                                }
+                            }
+                        }
+                    }
+                }
+            }
+        }));
+    }
+    if hdr {
+        // name length × value length, and real header names × real values in pairs of lines
+        for (e, cfgs, start) in [
+            (Entry::ReqCfg, vec![0u8, C_IGNORE_REQ, C_IGNORE_REQ | C_SPACE_BEFORE_FIRST], &b"GET / HTTP/1.1\r\n"[..]),
+            (Entry::RespCfg, vec![0u8, C_IGNORE_RESP, C_FOLDING | C_SPACES_AFTER_NAME, C_IGNORE_RESP | C_FOLDING, C_IGNORE_RESP | C_SPACE_BEFORE_FIRST | C_FOLDING | C_SPACES_AFTER_NAME], &b"HTTP/1.1 200 OK\r\n"[..]),
+            (Entry::Headers, vec![0u8], &b""[..]),
+        ] {
+            tasks.push(Box::new(move |ck: &mut Checker| {
+                let mut buf = Vec::new();
+                for &cfg in &cfgs {
+                    let lane = Lane::new(e, cfg, 4);
+                    for n in 1..=40usize {
+                        for v in 0..=40usize {
+                            for (ows, eol) in [(&b": "[..], &b"\r\n"[..]), (b":", b"\n"), (b":\t ", b" \r\n")] {
+                                for vf in [b'v', 0xffu8] {
+                                    buf.clear();
+                                    buf.extend_from_slice(start);
+                                    buf.extend(std::iter::repeat(b'n').take(n));
+                                    buf.extend_from_slice(ows);
+                                    buf.extend(std::iter::repeat(vf).take(v));
+                                    buf.extend_from_slice(eol);
+                                    buf.extend_from_slice(eol);
+                                    one_shot(ck, &lane, &buf);
+                                }
+                            }
+                        }
+                        if ck.full() {
+                            return;
+                        }
+                    }
+                    // every real header name in every line shape around the colon
+                    for n1 in HNAMES {
+                        for shape in 0..10usize {
+                            for eol in [&b"\r\n"[..], b"\n"] {
+                                buf.clear();
+                                buf.extend_from_slice(start);
+                                let (a, b): (&[u8], &[u8]) = match shape {
+                                    0 => (b"", b": v"),
+                                    1 => (b"", b" : v"),
+                                    2 => (b"", b"\t:v"),
+                                    3 => (b"", b" v"),
+                                    4 => (b"", b""),
+                                    5 => (b"", b":"),
+                                    6 => (b"", b":: v"),
+                                    7 => (b" ", b": v"),
+                                    8 => (b"", b"  \t : 5"),
+                                    _ => (b"\t", b" :"),
+                                };
+                                buf.extend_from_slice(a);
+                                buf.extend_from_slice(n1);
+                                buf.extend_from_slice(b);
+                                buf.extend_from_slice(eol);
+                                buf.extend_from_slice(b"Z: 1");
+                                buf.extend_from_slice(eol);
+                                buf.extend_from_slice(eol);
+                                one_shot(ck, &lane, &buf);
+                            }
+                        }
+                    }
+                    // every byte of every real header line replaced by every value
+                    for n1 in HNAMES {
+                        for v1 in HVALUES {
+                            let mut line = start.to_vec();
+                            let from = line.len();
+                            line.extend_from_slice(n1);
+                            line.extend_from_slice(b": ");
+                            line.extend_from_slice(v1);
+                            let to = line.len();
+                            line.extend_from_slice(b"\r\n\r\n");
+                            for pos in from..to {
+                                let orig = line[pos];
+                                for x in [0u8, 9, 10, 13, 0x1f, 0x20, 0x21, b':', 0x7f, 0x80, 0xff, orig ^ 0x20] {
+                                    line[pos] = x;
+                                    one_shot(ck, &lane, &line);
+                                }
+                                line[pos] = orig;
+                            }
+                        }
+                    }
+                    for n1 in HNAMES {
+                        for v1 in HVALUES {
+                            for n2 in HNAMES {
+                                for v2 in HVALUES {
+                                    for eol in [&b"\r\n"[..], b"\n"] {
+                                        buf.clear();
+                                        buf.extend_from_slice(start);
+                                        for (n, v) in [(n1, v1), (n2, v2)] {
+                                            buf.extend_from_slice(n);
+                                            buf.extend_from_slice(b": ");
+                                            buf.extend_from_slice(v);
+                                            buf.extend_from_slice(eol);
+                                        }
+                                        buf.extend_from_slice(eol);
+                                        one_shot(ck, &lane, &buf);
+                                    }
+                                }
+                            }
+                        }
+                        if ck.full() {
+                            return;
+                        }
+                    }
+                }
+            }));
+        }
+    }
+    p.phases.push(Phase { label: format!("S2d: two-field grids and real-world tokens (request line: {}, status line: {}, header block: {})", req, resp, hdr), backend: Backend::Native, tasks });
+    p.bounds.push("S2d: every byte of 30 real methods / 88 registered status lines × 256 values, of 224 real header lines × 12 values; method length 1..=24 × target length 1..=40 × 3 fillers × 3 tails; 30 methods × 10 targets × 12 protocol tokens × 3 separators × 5 line ends; 12 codes × 9 reason shapes × padding 0..=40 × 2 versions × 4 line ends; 44 (code, standard phrase) pairs × 12 protocol tokens × 2 separators × 4 line ends × with/without phrase; header name length 1..=40 × value length 0..=40 × 3 OWS/EOL shapes × 2 fillers; all pairs of (16 names × 14 values) header lines × 2 line ends — each under 1–3 option sets".into());
+}
+
+
+/// Fields that span three pages, with one offending byte at every offset within 40 bytes of each
+/// page boundary inside the buffer (buffer start page-aligned, and buffer end page-aligned): code
+/// that treats loads near a page boundary specially, with kilobytes of buffer still to come.
+pub fn add_page_boundary_sweep(p: &mut Plan, _q: bool, backends: &[Backend], names: &[&str]) {
+    let fields: Vec<Field> = FIELDS.iter().filter(|f| f.name != "chunk-digits" && (names.is_empty() || names.contains(&f.name))).cloned().collect();
+    for &b in backends {
+        let mut tasks: Vec<TaskFn> = Vec::new();
+        for f in fields.iter() {
+            for place in [Place::StartFlush, Place::EndFlush] {
+                let f = *f;
+                tasks.push(Box::new(move |ck: &mut Checker| {
+                    let lane = Lane { backend: b, place, ..Lane::new(f.entry, f.cfg, 4) };
+                    let page = crate::arena::PAGE;
+                    let l = 3 * page - 100;
+                    let mut buf = Vec::with_capacity(3 * page + 64);
+                    buf.extend_from_slice(f.pre);
+                    buf.extend(std::iter::repeat(f.fill).take(l));
+                    buf.extend_from_slice(f.post);
+                    let total = buf.len();
+                    one_shot(ck, &lane, &buf);
+                    for j in 1..=2usize {
+                        // offset of the j-th page boundary inside the buffer
+                        let boundary = if place == Place::StartFlush { j * page } else { total - j * page };
+                        for off in boundary - 40..=boundary + 40 {
+                            if off < f.pre.len() || off >= f.pre.len() + l {
+                                continue;
+                            }
+                            for v in [0x00u8, 0x09, 0x20, 0x7f, 0x0d] {
+                                if v == f.fill {
+                                    continue;
+                                }
+                                buf[off] = v;
+                                one_shot(ck, &lane, &buf);
+                            }
+                            buf[off] = f.fill;
+                            if ck.full() {
+                                return;
+                            }
+                        }
+                    }
+                }));
+            }
+        }
+        p.phases.push(Phase { label: format!("S2e: {} three-page fields × 2 placements × every offset within 40 bytes of each inner page boundary × 5 bytes", fields.len()), backend: b, tasks });
+    }
+    p.bounds.push(format!("S2e page boundaries: fields {:?} of 12 188 bytes, buffer start (end) page-aligned, one byte of {{00,09,20,7F,0D}} at every offset within 40 bytes of both inner page boundaries, backends {:?}", fields.iter().map(|f| f.name).collect::<Vec<_>>(), backends.iter().map(|b| b.name()).collect::<Vec<_>>()));
+}
+
+
+// --------------------------------------------------------------------------------------------
+// S2(f): strings of whole header LINES (the symbol trees stop at 6-8 bytes; option interplay
+// across three or four lines needs twenty)
+// --------------------------------------------------------------------------------------------
+
+const LINES: [&[u8]; 18] = [
+    b"A: b\r\n",
+    b"C: d\n",
+    b"E:\r\n",
+    b" f\r\n",
+    b"\tg\n",
+    b" \r\n",
+    b" \x01\r\n",
+    b"bad line\r\n",
+    b"K : v\r\n",
+    b" L: m\r\n",
+    b": n\r\n",
+    b"O: p\x01\r\n",
+    b"Q: r\rx\r\n",
+    b"\0\r\n",
+    b"S: t \r\n",
+    b"U:\tv\n",
+    b"W\t:x\r\n",
+    b"Y: \xff\r\n",
+];
+
+/// Every sequence of <= depth lines from an 18-line alphabet (valid lines in several spellings,
+/// fold lines with and without content or a bad byte, SP-led header lines, lines with whitespace
+/// before the colon, colon-less and empty-name lines, NUL and bare-CR lines), closed by CRLF / LF /
+/// nothing, under the given (entry, config) lanes and capacities.
+pub fn add_line_strings(p: &mut Plan, q: bool, lanes: &[(Entry, u8)], caps: &[u32]) {
+    let depth = if q { 3 } else { 4 };
+    let mut tasks: Vec<TaskFn> = Vec::new();
+    for &(e, cfg) in lanes {
+        for &cap in caps {
+            for first in 0..LINES.len() {
+                tasks.push(Box::new(move |ck: &mut Checker| {
+                    let lane = Lane::new(e, cfg, cap);
+                    let start: &[u8] = if e.is_req() { b"GET / HTTP/1.1\r\n" } else if e.is_resp() { b"HTTP/1.1 200 OK\r\n" } else { b"" };
+                    let n = LINES.len();
+                    let mut buf: Vec<u8> = Vec::new();
+                    // the empty sequence once (task 0), then sequences that start with `first`
+                    for d in (if first == 0 { 0 } else { 1 })..=depth {
+                        let mut idx = vec![0usize; d];
+                        if d > 0 {
+                            idx[0] = first;
+                        }
+                        'outer: loop {
+                            buf.clear();
+                            buf.extend_from_slice(start);
+                            for &i in &idx {
+                                buf.extend_from_slice(LINES[i]);
+                            }
+                            let k = buf.len();
+                            for tail in [&b"\r\n"[..], b"\n", b""] {
+                                buf.truncate(k);
+                                buf.extend_from_slice(tail);
+                                one_shot(ck, &lane, &buf);
+                            }
+                            // (position 0 is fixed per task)
+                            let mut j = d;
+                            loop {
+                                if j <= 1 {
+                                    break 'outer;
+                                }
+                                j -= 1;
+                                idx[j] += 1;
+                                if idx[j] < n {
+                                    break;
+                                }
+                                idx[j] = 0;
+                            }
+                        }
+                        if ck.full() {
+                            return;
+                        }
+                    }
+                }));
+            }
+        }
+    }
+    p.phases.push(Phase { label: format!("S2f: header-line strings Σ(18 lines)^≤{} × 3 closings × {} lanes × capacities {:?}", depth, lanes.len(), caps), backend: Backend::Native, tasks });
+    p.bounds.push(format!("S2f line strings: every sequence of <= {} lines over 18 line shapes × closings CRLF / LF / none × {} (entry, config) lanes × capacities {:?}", depth, lanes.len(), caps));
 }
 
 pub fn add_lane_phase(p: &mut Plan, q: bool, backends: &[Backend]) {
@@ -1260,7 +1737,7 @@ pub fn add_chunk_sweeps(p: &mut Plan, q: bool) {
     let mut tasks: Vec<TaskFn> = Vec::new();
     tasks.push(Box::new(move |ck: &mut Checker| {
         let lane = Lane::new(Entry::Chunk, 0, 0);
-        let terms: [&[u8]; 12] = [b"\r\n", b"\n", b"\r", b"", b" \r\n", b"\t \r\n", b";\r\n", b";a=b\r\n", b" ;x\r\n", b"\r\r\n", b" 1\r\n", b"g\r\n"];
+        let terms: [&[u8]; 16] = [b"\r\n", b"\n", b"\r", b"", b" \r\n", b"\t \r\n", b";\r\n", b";a=b\r\n", b" ;x\r\n", b"\r\r\n", b" 1\r\n", b"g\r\n", b";name=F0e9\r\n", b" \t; 0\r\n", b";q=\"a\\\"b\"\r\n", b";a=\"b\\\r\n"];
         for n in 0..=20usize {
             let mut pats: Vec<Vec<u8>> = Vec::new();
             pats.push(vec![b'0'; n]);
@@ -1292,10 +1769,86 @@ pub fn add_chunk_sweeps(p: &mut Plan, q: bool) {
                     one_shot(ck, &lane, &buf);
                     buf.extend_from_slice(b"tail");
                     one_shot(ck, &lane, &buf);
+                    // followed by chunk data and the next chunk lines (fast paths keyed on how much
+                    // of the buffer is left)
+                    buf.extend_from_slice(b" of the chunk data\r\n5\r\nhello\r\n0\r\n\r\n");
+                    one_shot(ck, &lane, &buf);
                 }
             }
         }
     }));
+    // every string of <= 4 symbols of the chunk alphabet, alone and in front of 24 more bytes
+    tasks.push(Box::new(move |ck: &mut Checker| {
+        let lane = Lane::new(Entry::Chunk, 0, 0);
+        let alpha = crate::s1::chunk_alphabet();
+        let n = alpha.len();
+        let mut buf: Vec<u8> = Vec::new();
+        for d in 0..=4usize {
+            let mut idx = vec![0usize; d];
+            'outer: loop {
+                buf.clear();
+                for &i in &idx {
+                    buf.extend_from_slice(&alpha[i]);
+                }
+                let k = buf.len();
+                buf.extend_from_slice(b"5\r\nhello\r\n0\r\n\r\nmore data");
+                one_shot(ck, &lane, &buf);
+                buf.truncate(k);
+                let mut j = d;
+                loop {
+                    if j == 0 {
+                        break 'outer;
+                    }
+                    j -= 1;
+                    idx[j] += 1;
+                    if idx[j] < n {
+                        break;
+                    }
+                    idx[j] = 0;
+                }
+            }
+            if ck.full() {
+                return;
+            }
+        }
+    }));
+    // chunk extensions as a language of their own: every string of <= 6 symbols over
+    // {a = " \ ; SP CR LF} behind "4;" and behind "4;n=" (quoted strings, escapes)
+    for pre in [&b"4;"[..], b"4;n=", b"4 ;n=\""] {
+        tasks.push(Box::new(move |ck: &mut Checker| {
+            let lane = Lane::new(Entry::Chunk, 0, 0);
+            let alpha: [u8; 8] = [b'a', b'=', b'"', b'\\', b';', b' ', b'\r', b'\n'];
+            let mut buf: Vec<u8> = Vec::new();
+            for d in 0..=6usize {
+                let mut idx = vec![0usize; d];
+                'outer: loop {
+                    buf.clear();
+                    buf.extend_from_slice(pre);
+                    for &i in &idx {
+                        buf.push(alpha[i]);
+                    }
+                    one_shot(ck, &lane, &buf);
+                    buf.extend_from_slice(b"\r\nDATA\r\n0\r\n\r\n");
+                    one_shot(ck, &lane, &buf);
+                    let mut j = d;
+                    loop {
+                        if j == 0 {
+                            break 'outer;
+                        }
+                        j -= 1;
+                        idx[j] += 1;
+                        if idx[j] < alpha.len() {
+                            break;
+                        }
+                        idx[j] = 0;
+                    }
+                }
+                if ck.full() {
+                    return;
+                }
+            }
+        }));
+    }
     let ext = FIELDS[7];
     tasks.extend(lane_phase_tasks(&[ext], lmax, Backend::Native));
     // every byte value at every position of a run of 0..=20 digits
@@ -1303,8 +1856,8 @@ pub fn add_chunk_sweeps(p: &mut Plan, q: bool) {
     // and of the chunk templates
     let cts: Vec<Template> = templates().into_iter().filter(|t| t.kind == TKind::Chunk).collect();
     tasks.extend(mutation_tasks(&cts, Backend::Native, 0));
-    p.phases.push(Phase { label: format!("S2c: chunk digit counts 0..=20 × 10 boundary patterns × 12 terminators; extension L≤{} × position × 256 values", lmax), backend: Backend::Native, tasks });
-    p.bounds.push(format!("S2c: chunk size digit counts 0..=20, patterns 0…0 f…f F…F 9…9 10…0 7f…f 80…0 0…01 mixed 0f…f, 12 terminator shapes; extension run 0..={} × position × 256 values", lmax));
+    p.phases.push(Phase { label: format!("S2c: chunk digit counts 0..=20 × 10 boundary patterns × 16 terminators (alone, + tail, + chunk data); Σ(14)^≤4 in front of 24 more bytes; extension strings Σ(8)^≤6 over a = quote backslash ; SP CR LF behind 3 prefixes; extension L≤{} × position × 256 values", lmax), backend: Backend::Native, tasks });
+    p.bounds.push(format!("S2c: chunk size digit counts 0..=20, patterns 0…0 f…f F…F 9…9 10…0 7f…f 80…0 0…01 mixed 0f…f, 16 terminator shapes (hex digits inside the extension, quoted strings with escapes), each alone, followed by 4 bytes and followed by chunk data; every chunk-alphabet string of <= 4 symbols in front of 24 more bytes; every extension string of <= 6 symbols over {{a,=,quote,backslash,;,SP,CR,LF}} behind three prefixes (4; / 4;n= / 4 ;n=quote), alone and followed by a line end and data; extension run 0..={} × position × 256 values", lmax));
 }
 
 // --------------------------------------------------------------------------------------------
@@ -1376,6 +1929,36 @@ fn corpus_pieces(q: bool) -> Vec<Corpus> {
                             g(&lane, &buf);
                         }
                         buf[f.pre.len() + pos] = f.fill;
+                    }
+                }
+            }));
+        }
+    }
+    // three-page fields with one offending byte around each inner page boundary
+    for f in FIELDS.iter().filter(|f| f.name != "chunk-digits") {
+        for place in [Place::StartFlush, Place::EndFlush] {
+            let f = *f;
+            v.push(Arc::new(move |g: &mut dyn FnMut(&Lane, &[u8])| {
+                let lane = Lane { place, ..Lane::new(f.entry, f.cfg, 4) };
+                let page = crate::arena::PAGE;
+                let l = 3 * page - 100;
+                let mut buf = Vec::with_capacity(3 * page + 64);
+                buf.extend_from_slice(f.pre);
+                buf.extend(std::iter::repeat(f.fill).take(l));
+                buf.extend_from_slice(f.post);
+                let total = buf.len();
+                g(&lane, &buf);
+                for j in 1..=2usize {
+                    let boundary = if place == Place::StartFlush { j * page } else { total - j * page };
+                    for off in boundary - 40..=boundary + 40 {
+                        if off < f.pre.len() || off >= f.pre.len() + l {
+                            continue;
+                        }
+                        for x in [0x00u8, 0x09, 0x20, 0x7f, 0x0a] {
+                            buf[off] = x;
+                            g(&lane, &buf);
+                        }
+                        buf[off] = f.fill;
                     }
                 }
             }));
@@ -1527,6 +2110,8 @@ pub fn add_alignment_agreement(p: &mut Plan, q: bool) {
                     let mut places = vec![Place::StartFlush];
                     places.extend((0..32).map(Place::Mid));
                     places.extend((0..8).map(Place::Hostile));
+                    // the data straddles a page boundary k bytes in
+                    places.extend([1usize, 2, 3, 7, 8, 9, 15, 16, 17, 31, 32, 33, 63, 64, 65].iter().map(|k| Place::Mid(crate::arena::PAGE - k)));
                     for pl in places {
                         let l2 = Lane { place: pl, ..base };
                         let (o, _) = ck.eval(&l2, &buf, None, None);
@@ -1543,9 +2128,9 @@ pub fn add_alignment_agreement(p: &mut Plan, q: bool) {
             }
         }));
     }
-    p.phases.push(Phase { label: format!("C13: 9 fields × L≤{} × 4 offending-byte shapes × 42 placements (start alignment 0..31, start-flush, end-flush, 8 with in-class bytes around the buffer)", lmax), backend, tasks });
+    p.phases.push(Phase { label: format!("C13: 9 fields × L≤{} × 4 offending-byte shapes × 57 placements (start alignment 0..31, start-flush, end-flush, 8 with in-class bytes around the buffer, 15 straddling a page boundary)", lmax), backend, tasks });
   }
-    p.bounds.push(format!("alignment (under each forced backend avx2 / sse4.2 / scalar): field run lengths 0..={} × 4 shapes × start alignments 0..=31 + both guard-flush placements", lmax));
+    p.bounds.push(format!("alignment (under each forced backend avx2 / sse4.2 / scalar): field run lengths 0..={} × 4 shapes × start alignments 0..=31 + both guard-flush placements + a page boundary 1..65 bytes into the data", lmax));
 }
 
 pub fn replay_agreement(ck: &mut Checker, lane: &Lane, input: &[u8], relation: &str) -> i32 {
